@@ -16,6 +16,12 @@ def dump_nesting(d):
 def finish_standard(run, prop, ok, info, oracle_fail, all_mism, cfg_default="10001", harness="text_h"):
     """common tail: report oracle failures first (they are concrete failing inputs), then bare
     model/implementation disagreements, then broken proof obligations"""
+    # a marker put by the harness means that two observers of the library disagree with each other on this very input
+    # (size() vs iteration, JsonPair vs JsonPairConst, c_str() vs code() ...): a concrete failing input, not a bare disagreement
+    for item in all_mism:
+        cfg, (k, l, a, b) = item
+        if any(m in b for m in ("!OBS:", "!TYPED:", "BadErrorObject")) and not any(x[1] == l for x in oracle_fail):
+            oracle_fail.append((cfg, l, "the library's observers agree with each other (size/nesting/lookup/iteration, typed references, error object): " + a[:120], b))
     for item in oracle_fail[:5]:
         cfg, l, e, o = item
         run.violation(f"{prop} oracle (cfg {cfg}): {l[:140]}: expected {str(e)[:200]}; library: {o[:200]}",
